@@ -43,7 +43,7 @@ def run(res):
     dealt = [order[k::shards] for k in range(shards)]
     flat = [i for d in dealt for i in d]
     tr2 = [traces[i] for i in flat]
-    v = tlc.validate_traces("XorMaskTrace", "XorMaskTrace.cfg", tr2, shards=shards, heap="3g", timeout=3000)
+    v = tlc.validate_traces("XorMaskTrace", "XorMaskTrace.cfg", tr2, shards=shards, heap="2g", timeout=3000)
     res.traces += v["n"]
     res.actions.update({"XorMaskTrace:" + k: c[1] for k, c in v["coverage"].items()})
     for idx, l in v["rejected"][:20]:
